@@ -33,8 +33,10 @@ RULE = (
     "'exact multiples of the window / refill period', '+-1/2 ns around them', 'float multiples k*w converted like "
     "Instant.from_seconds', dense (0/1/2 ns and sub-period steps), same-instant bursts, sparse; parameters from small "
     "grids incl. windows 0.1/0.2/0.3/0.7/0.29 s whose float multiples are inexact; adaptive: random "
-    "success/failure/timeout feedback interleaved. Each op is a try_acquire, optionally preceded by a deep-copy "
-    "truthfulness probe or a real time_until_available call. Non-trivial (policy families): >= 1 arrival exactly on a "
+    "success/failure/timeout feedback interleaved. Each op is a try_acquire (optionally preceded by a clone "
+    "truthfulness probe or a real time_until_available call), or a read-only query on the real object alone "
+    "(time_until_available only / public attribute reads) issued in every state: fresh, full after an idle period, "
+    "just refilled, exhausted; composite segments 'query while full -> idle gap -> ns-adjacent burst larger than the allowance'. Non-trivial (policy families): >= 1 arrival exactly on a "
     "window / refill boundary (measured from the case times) and >= 1 denial (measured from try_acquire). "
     "Simulation families: <= 60 tagged requests injected pre-run or by a feeder entity into RateLimitedEntity (every "
     "policy, queue capacity 0-5), Inductor, two DistributedRateLimiter instances over one KVStore with latency > 0, "
@@ -129,15 +131,49 @@ WINDOWS = [0.1, 0.2, 0.3, 0.7, 0.05, 0.25, 1.0, 0.29, 0.001, 0.6, 1.1, 1.001, 1.
 RATES = [0.5, 1.0, 2.0, 3.0, 7.0, 10.0, 100.0, 1000.0, 10000.0, 0.3, 3.3]
 
 
-def gen_times(rng: random.Random, P: int, wf: float | None, n: int, anchor: int = 0) -> list[int]:
-    """Nondecreasing arrival instants (ns) around multiples of P counted from `anchor`."""
+def gen_times(
+    rng: random.Random,
+    P: int,
+    wf: float | None,
+    n: int,
+    anchor: int = 0,
+    fill: int = 1,
+    burst: int = 3,
+    marks: dict | None = None,
+) -> list[int]:
+    """Nondecreasing arrival instants (ns) around multiples of P counted from `anchor`.
+
+    `fill` = number of periods after which an idle limiter is certainly back to its full allowance,
+    `burst` = size of that allowance.  When `marks` is given (policy families) the composite segment
+    'query-idle-burst' is generated too and forces op kinds by index: read-only queries
+    ('t' = time_until_available only, 'r' = public attribute reads) in a full / just-refilled state,
+    an idle gap, then a nanosecond-adjacent burst of acquires larger than the allowance.
+    """
     t = anchor
     out: list[int] = []
-    segs = ["boundary", "boundary", "near", "dense", "burst", "sparse", "sub"]
+    segs = ["boundary", "boundary", "near", "dense", "burst", "sparse", "sub", "idle"]
     if wf is not None:
         segs += ["floatmult", "truncmult"]
+    if marks is not None:
+        segs += ["query-idle-burst", "query-idle-burst"]
     while len(out) < n:
         seg = rng.choice(segs)
+        if seg == "query-idle-burst":
+            if rng.random() < 0.7:  # let the limiter recover its full allowance first
+                t += rng.randrange(fill * P, 3 * fill * P + 2)
+            elif rng.random() < 0.5:  # or sit exactly on / next to the instant it becomes full
+                t = anchor + ((t - anchor) // P + fill) * P + rng.choice([-1, 0, 0, 1])
+            for _ in range(rng.choice([1, 1, 2, 3])):  # queries; repeated ones are spaced by idle time
+                marks[len(out)] = rng.choice(["t", "t", "t", "r"])
+                out.append(t)
+                if rng.random() < 0.5:
+                    t += rng.choice([0, 1, P, 2 * P, fill * P])
+            t += rng.choice([P, P + 1, 2 * P, fill * P, fill * P + 1, rng.randrange(P, 3 * fill * P + 2)])
+            for _ in range(rng.randrange(2, min(burst, 12) + 4)):
+                marks[len(out)] = rng.choice(["a", "a", "a", "a", "q", "p"])
+                out.append(t)
+                t += rng.choice([0, 0, 1, 1, 1, 2])
+            continue
         m = rng.randrange(1, 10)
         for _ in range(m):
             if len(out) >= n:
@@ -161,22 +197,31 @@ def gen_times(rng: random.Random, P: int, wf: float | None, n: int, anchor: int 
                 t2 = t
             elif seg == "sub":
                 t2 = t + max(1, P // rng.choice([2, 3, 4, 5, 7, 10, 16]))
+            elif seg == "idle":
+                t2 = t + rng.randrange(fill * P, 3 * fill * P + 2)
+                t = max(t, t2, 0)
+                out.append(t)
+                break  # one arrival after the idle period, then another segment
             else:
                 t2 = t + rng.randrange(P, 4 * P + 1)
             t = max(t, t2, 0)
             out.append(t)
-    return out
+    return out[:n] if marks is None else out
 
 
 def _op_kinds(rng: random.Random) -> list[str]:
-    style = rng.choice(["probe-all", "mixed", "mixed", "acquire-mostly", "real-tua"])
+    """a = acquire, p = clone probe + acquire, q = real time_until_available + acquire,
+    t = real time_until_available only, r = read the public attributes only."""
+    style = rng.choice(["probe-all", "mixed", "mixed", "acquire-mostly", "real-tua", "query-heavy"])
     if style == "probe-all":
-        return ["p"]
+        return ["p", "p", "p", "p", "t"]
     if style == "mixed":
-        return ["p", "p", "a", "q"]
+        return ["p", "p", "a", "q", "t", "r"]
     if style == "real-tua":
-        return ["q", "q", "p", "a"]
-    return ["a", "a", "a", "p"]
+        return ["q", "q", "p", "a", "t"]
+    if style == "query-heavy":
+        return ["t", "t", "r", "a", "a", "q"]
+    return ["a", "a", "a", "a", "p", "t"]
 
 
 def gen_policy(kind: str):
@@ -212,14 +257,28 @@ def gen_policy(kind: str):
         P = period_ns(spec)
         n = rng.choice([5, 12, 30, 60, 120, 200])
         anchor = rng.choice([0, 0, 0, P, 7 * P, rng.randrange(0, 3 * P + 1)])
-        times = gen_times(rng, P, wf, n, anchor)
+        if kind == "token":
+            fill, burst = int(params["capacity"]) + 1, int(params["capacity"])
+        elif kind == "leaky":
+            fill, burst = 1, 1
+        elif kind in ("sliding", "fixed"):
+            fill, burst = rng.choice([1, 2]), params["n"]
+        else:  # a full adaptive bucket holds rate*window tokens: `window` seconds of refill at any rate
+            fill, burst = int(params["window"] * NS / P) + 1, max(1, int(params["initial_rate"] * params["window"]))
+        marks: dict = {}
+        times = gen_times(rng, P, wf, n, anchor, fill=fill, burst=burst, marks=marks)
         kinds = _op_kinds(rng)
         ops = []
-        for t in times:
+        for i, t in enumerate(times):
             if kind == "adaptive" and rng.random() < 0.35:
                 for _ in range(rng.choice([1, 1, 2, 5])):
                     ops.append([rng.choice(["s", "s", "f", "to"]), t])
-            ops.append([rng.choice(kinds), t])
+            ops.append([marks.get(i) or rng.choice(kinds), t])
+        if ops and rng.random() < 0.3:  # first touch of a freshly constructed policy is a read-only query
+            for o in ops:
+                if o[0] in ("a", "p", "q", "t", "r"):
+                    o[0] = rng.choice(["t", "t", "r"])
+                    break
         return {"policy": spec, "ops": ops[:260], "anchor": anchor}
 
     return gen
@@ -452,6 +511,7 @@ def run_policy(case: dict) -> Result:
     denials = 0
     on_boundary = 0
     first_t = None
+    pending = None  # (t, wait) promised by the last query-only time_until_available on the real object
     # adaptive bookkeeping: rate after each op; index of first policy query at each instant
     rate_after: list[float] = []
     for idx, (op, t) in enumerate(case["ops"]):
@@ -468,9 +528,34 @@ def run_policy(case: dict) -> Result:
             if not (pol.min_rate <= r <= pol.max_rate):
                 res.add("rate-out-of-range", comp, f"after-{op}", f"current_rate={r} outside [{pol.min_rate},{pol.max_rate}]")
             rate_after.append(r)
+            pending = None  # feedback may legitimately change what the last query promised
             continue
         if first_t is None:
             first_t = t
+        if op == "r":
+            # read-only public queries (properties such as tokens / current_rate): must not change anything
+            before = _sig(pol)
+            for name in dir(pol):
+                if not name.startswith("_") and not callable(getattr(type(pol), name, None)):
+                    getattr(pol, name)
+            res.count("readonly_queries")
+            if _sig(pol) != before:
+                res.add("read-changes-state", comp, "public-attribute-read", f"reading public attributes at op {idx} changed the policy state")
+            if kind == "adaptive":
+                rate_after.append(pol.current_rate)
+            continue
+        if op == "t":
+            # time_until_available alone on the real object, in whatever state it is (full, just refilled,
+            # fresh): the promise is checked against the next real acquires
+            w = pol.time_until_available(now).nanoseconds
+            res.count("tua_probes")
+            res.count("tua_only_queries")
+            if w < 0:
+                res.add("negative-wait", comp, _pos(t, P, anchor), f"{w}")
+            pending = (t, w)
+            if kind == "adaptive":
+                rate_after.append(pol.current_rate)
+            continue
         if _pos(t, P, anchor) == "on-boundary" and t != first_t:
             on_boundary += 1
         if op == "p":
@@ -481,6 +566,29 @@ def run_policy(case: dict) -> Result:
             res.count("tua_probes")
         ok = pol.try_acquire(now)
         res.count("acquires_checked")
+        if pending is not None:
+            qt, qw = pending
+            if qw == 0:
+                if t == qt and not ok:
+                    res.add(
+                        "zero-wait-but-acquire-fails",
+                        comp,
+                        _zero_shape(t, P, anchor),
+                        f"time_until_available({qt}ns) == 0 (query only) but the next try_acquire({t}ns) is False",
+                        {"t_ns": t},
+                    )
+                pending = None  # the promise covered one immediate acquire
+            elif t >= qt + qw:
+                pending = None
+            elif ok:
+                res.add(
+                    "acquire-before-wait-elapsed",
+                    comp,
+                    "after-query-only:" + _pos(qt, P, anchor),
+                    f"time_until_available({qt}ns) = {qw}ns (query only) but try_acquire succeeds at {t}ns (+{t - qt}ns)",
+                    {"t_ns": qt, "wait_ns": qw, "dt": t - qt},
+                )
+                pending = None
         if w is not None:
             pos = _pos(t, P, anchor)
             if w == 0 and not ok:
@@ -526,7 +634,7 @@ def _adaptive_bound(res, comp, spec, ops, rate_after, admitted, admitted_op):
     p = spec["params"]
     W = p["window"]
     init = p["initial_rate"]
-    is_query = [op in ("a", "p", "q") for op, _ in ops]
+    is_query = [op in ("a", "p", "q", "t") for op, _ in ops]  # ops that refill the real object
     # first query op at each instant, and whether an earlier-instant query exists
     first_query_at: dict[int, int] = {}
     for idx, (op, t) in enumerate(ops):
